@@ -1,6 +1,6 @@
 (* C14/Run.v -- entry point of the correspondence check. *)
 From Coq Require Import ZArith List Bool.
-From AK Require Export Common.Sx Common.Err C14.Model.
+From AK Require Export Common.Sx Common.Err C14.Model C14.World.
 Import ListNotations.
 Open Scope Z_scope.
 
@@ -14,7 +14,13 @@ Inductive op :=
    str(conf.get_color(id)('x')) is observed for every id of [watch]. *)
 Inductive case :=
 | Case (nc : bool) (init : list (str * cval)) (builtin : option (list (str * cval)))
-       (watch : list str) (ops : list op).
+       (watch : list str) (ops : list op)
+(* a session on the module state of a freshly imported ak.color (C14/World.v): user
+   Palette classes 1.. (0 is GlobalPalette), API calls; after every call EVERY access
+   path is observed: get_color of every configuration object created so far, the
+   accessor attributes of every synced palette object, palette[id] of the synced
+   GlobalPalette-like ones, and what the call returned *)
+| WCase (classes : list pclass) (watch : list str) (ops : list wop).
 
 (* str(fmt('x')) is  ESC[ p1;p2;... m x ESC[0m  (or just x when there are no parameters);
    the observation is the text between "ESC[" and "m" (the harness checks the frame) *)
@@ -46,8 +52,84 @@ Fixpoint run_ops (c : conf) (watch : list str) (ops : list op) : list sx :=
       end
   end.
 
+(* ---- sessions (C14/World.v).  The rendered formatters of a session are interned: the
+   output is (table steps) where table is the sorted list of the distinct parameter
+   strings that were observed and every formatter is its index in the table. *)
+Section Enc.
+  Variable enc : fmt -> sx.
+  Definition sx_fmts (l : list fmt) : sx := SL (map enc l).
+  Definition observe_e (c : conf) (watch : list str) : sx := sx_fmts (map (get_color c) watch).
+
+  Definition observe_spal (w : world) (watch : list str) (sp : spal) : sx :=
+    SL [sx_fmts (sp_attrs sp);
+        match nth_error (w_classes w) (sp_cls sp), nth_error (w_confs w) (sp_ptr sp) with
+        | Some pc, Some wc => if pc_global pc then observe_e (wc_conf wc) watch else SL []
+        | _, _ => SL []
+        end].
+
+  (* the index of the global configuration, the colours of every configuration, every
+     synced palette, and the list of argument dictionaries that were modified (never any) *)
+  Definition observe_world (w : world) (watch : list str) : list sx :=
+    [sx_nat (w_global w);
+     SL (map (fun wc => observe_e (wc_conf wc) watch) (w_confs w));
+     SL (map (observe_spal w watch) (w_synced w));
+     SL []].
+
+  Fixpoint run_wops (w : world) (watch : list str) (ops : list wop) : list sx :=
+    match ops with
+    | [] => []
+    | o :: r =>
+        match w_step w o with
+        | Err e => [sx_err e]
+        | Ok (w', (idx, attrs)) =>
+            SL (SZ 0 :: sx_nat idx :: sx_fmts attrs :: observe_world w' watch) :: run_wops w' watch r
+        end
+    end.
+End Enc.
+
+(* every formatter the functions above look at *)
+Definition spal_fmts (w : world) (watch : list str) (sp : spal) : list fmt :=
+  sp_attrs sp ++
+  match nth_error (w_classes w) (sp_cls sp), nth_error (w_confs w) (sp_ptr sp) with
+  | Some pc, Some wc => if pc_global pc then map (get_color (wc_conf wc)) watch else []
+  | _, _ => []
+  end.
+Definition world_fmts (w : world) (watch : list str) : list fmt :=
+  flat_map (fun wc => map (get_color (wc_conf wc)) watch) (w_confs w) ++ flat_map (spal_fmts w watch) (w_synced w).
+Fixpoint wops_fmts (w : world) (watch : list str) (ops : list wop) : list fmt :=
+  match ops with
+  | [] => []
+  | o :: r =>
+      match w_step w o with
+      | Err e => []
+      | Ok (w', (idx, attrs)) => attrs ++ world_fmts w' watch ++ wops_fmts w' watch r
+      end
+  end.
+
+Fixpoint dedupe_sorted (l : list str) : list str :=
+  match l with
+  | x :: ((y :: _) as r) => if str_eqb x y then dedupe_sorted r else x :: dedupe_sorted r
+  | _ => l
+  end.
+Fixpoint index_of (s : str) (l : list str) (n : nat) : nat :=
+  match l with
+  | [] => n
+  | x :: r => if str_eqb s x then n else index_of s r (S n)
+  end.
+
+Definition run_world (classes : list pclass) (watch : list str) (ops : list wop) : sx :=
+  match w_init classes with
+  | Err e => SL [sx_err e]
+  | Ok w0 =>
+      let table := dedupe_sorted (sort_strs (map render (world_fmts w0 watch ++ wops_fmts w0 watch ops))) in
+      let enc := fun f => sx_nat (index_of (render f) table 0) in
+      SL [SL (map sx_str table);
+          SL (SL (SZ 0 :: sx_nat 0 :: sx_fmts enc [] :: observe_world enc w0 watch) :: run_wops enc w0 watch ops)]
+  end.
+
 Definition run (c : case) : sx :=
   match c with
+  | WCase classes watch ops => run_world classes watch ops
   | Case nc init builtin watch ops =>
       match new_conf nc init (match builtin with Some b => b | None => builtin_config end) with
       | Err e => SL [sx_err e]
